@@ -60,13 +60,15 @@ def gen_cases(ctx, rng, count):
         # surplus variable in the data set sometimes
         dvars = list(vs) + (["zz"] if rng.random() < 0.1 else [])
         data = F.gen_trace(rng, dvars, n)
-        cases.append({"stream": stream, "f": f, "n": n, "data": data, "decl": dvars})
+        # some variables are objects of a user-defined type read through a field (`a.value`)
+        struct = sorted(v for v in vs if rng.random() < 0.5) if rng.random() < 0.15 else []
+        cases.append({"stream": stream, "f": f, "n": n, "data": data, "decl": dvars, "struct": struct})
     return cases
 
 
 def impl_eval(case, time=None):
     text = "out = " + F.to_text(case["f"])
-    return impl.eval_offline_discrete(text, case["decl"], case["data"], case["n"], time=time)
+    return impl.eval_offline_discrete(text, case["decl"], case["data"], case["n"], time=time, struct=case.get("struct") or ())
 
 
 def check_case(ctx, case, model_off, model_rho, model_gen=None):
@@ -74,7 +76,7 @@ def check_case(ctx, case, model_off, model_rho, model_gen=None):
     f, n, data = case["f"], case["n"], case["data"]
     out = impl_eval(case)
     text = "out = " + F.to_text(f)
-    rep = {"spec": text, "declare": case["decl"], "data": data, "n": n, "formula": F.to_proto(f), "monitor": "discrete offline",
+    rep = {"struct": list(case.get("struct") or ()), "spec": text, "declare": case["decl"], "data": data, "n": n, "formula": F.to_proto(f), "monitor": "discrete offline",
            "model_evalOff": model_off, "model_rho": model_rho, "impl": out}
     if model_rho[0] == "undef":
         expected = None
@@ -244,7 +246,8 @@ def corpus_run(ctx):
 def case_of_replay(obj):
     f = F.from_proto(obj["formula"])
     data = {k: [float(x) for x in v] for k, v in obj["data"].items()}
-    return {"stream": "replay", "f": f, "n": obj["n"], "data": data, "decl": obj.get("declare") or sorted(data)}
+    return {"stream": "replay", "f": f, "n": obj["n"], "data": data, "decl": obj.get("declare") or sorted(data),
+            "struct": obj.get("struct") or []}
 
 
 def replay(ctx, obj):
